@@ -1024,6 +1024,15 @@ func child() {
 		}
 		r := evid.Rand(int64(11000 + i))
 		cfg := histCfg{idx: i, writers: 2 + r.Intn(3), readers: 2 + r.Intn(7), opsEach: 12 + r.Intn(25), pairMode: i%6 == 5, rebuild: i%4 == 1 || i%8 == 7, big: i%8 == 7 && i < 320}
+		if cfg.big {
+			// enough writers and operations that some writer is waiting at most chunk boundaries
+			if cfg.writers < 4 {
+				cfg.writers = 4
+			}
+			if cfg.opsEach < 32 {
+				cfg.opsEach = 32
+			}
+		}
 		wg.Add(1)
 		sem <- struct{}{}
 		go func() {
